@@ -328,7 +328,9 @@ func isIntegerType(t types.Type) bool {
 	return ok && b.Info()&types.IsInteger != 0
 }
 
-func isSSAFunctionPtr(t types.Type) bool { return strings.HasSuffix(t.String(), "*"+ssaPkgPath+".Function") }
+func isSSAFunctionPtr(t types.Type) bool {
+	return strings.HasSuffix(t.String(), "*"+ssaPkgPath+".Function")
+}
 
 // isLoopCounter: an integer phi that starts at a constant and is advanced by a constant on its other edges
 // (go/ssa's synthetic range index, or a hand-written i := 0; ...; i++ counter).
